@@ -49,7 +49,7 @@ def user_globals_canon(globals_, is_library):
 
 
 def run_real(plan, limit='absent', sim_options=True, hook=None, env=None, on_event=None, model=None,
-             globals_=None, max_starts=None, reuse_options=None):
+             globals_=None, max_starts=None, reuse_options=None, options_patch=None):
     """Execute plan['model'] with the real runtime under the simulated world.
 
     limit: 'absent' (no maxStatements key) or an int.
@@ -64,23 +64,27 @@ def run_real(plan, limit='absent', sim_options=True, hook=None, env=None, on_eve
     if env is None:
         env = Env(plan, 'real')
     env.on_event = on_event
+    # the embedder's callbacks reach the simulated world through a cell, so that one options object (with the very
+    # same fetchFn / logFn / urlFn objects in it) can be used for a second run against a fresh world
+    cell = reuse_options.env_cell if reuse_options is not None else [None]
+    cell[0] = env
 
     def host_adapter(name):
         def host_fn(args, options):
             try:
-                return env.host(name, args, lambda f, a: f(a, options), options)
+                return cell[0].host(name, args, lambda f, a: f(a, options), options)
             except HostFailure as hf:
                 raise make_exception(hf.exc_name, hf.message, hf.return_value) from None
         return host_fn
 
     def fetch_fn(request):
         try:
-            return env.fetch(request['url'] if isinstance(request, dict) else request)
+            return cell[0].fetch(request['url'] if isinstance(request, dict) else request)
         except HostFailure as hf:
             raise make_exception(hf.exc_name, hf.message) from None
 
     def log_fn(text):
-        env.log(text)
+        cell[0].log(text)
 
     if globals_ is None:
         globals_ = build_globals(plan.get('globals'))
@@ -88,30 +92,40 @@ def run_real(plan, limit='absent', sim_options=True, hook=None, env=None, on_eve
         globals_[name] = host_adapter(name)
 
     if reuse_options is not None:
-        # an embedder re-using one options object for a second execution: everything it sets is set again,
-        # whatever the runtime left behind in it (statementCount, …) stays
+        # an embedder re-using one options object for a second execution: it passes the same dict again, with fresh
+        # globals and (only if it differs) another limit; whatever the runtime left behind or changed in the dict
+        # (statementCount, a replaced urlFn, …) stays
         options = reuse_options
-        for key in ('debug', 'logFn', 'fetchFn', 'urlFn', 'systemPrefix', 'maxStatements'):
-            if key in options:
-                dict.__delitem__(options, key)
+        options['globals'] = globals_
+        if limit != 'absent' and dict.get(options, 'maxStatements', 'absent') != limit:
+            options['maxStatements'] = limit
     else:
         options = SimOptions() if sim_options else {}
-    options['globals'] = globals_
-    if plan.get('debug'):
-        options['debug'] = True
-    if plan.get('has_log', True):
-        options['logFn'] = log_fn
-    if plan.get('has_fetch', True):
-        options['fetchFn'] = fetch_fn
-    url_kind = plan.get('url_kind')
-    if url_kind == 'identity':
-        options['urlFn'] = lambda url: url
-    elif url_kind is not None:
-        options['urlFn'] = functools.partial(url_file_relative, url_kind[1])
-    if plan.get('system_prefix') is not None:
-        options['systemPrefix'] = plan['system_prefix']
-    if limit != 'absent':
-        options['maxStatements'] = limit
+        options['globals'] = globals_
+        if plan.get('debug'):
+            options['debug'] = True
+        if plan.get('has_log', True):
+            options['logFn'] = log_fn
+        if plan.get('has_fetch', True):
+            options['fetchFn'] = fetch_fn
+        url_kind = plan.get('url_kind')
+        if url_kind == 'identity':
+            options['urlFn'] = lambda url: url
+        elif url_kind is not None:
+            options['urlFn'] = functools.partial(url_file_relative, url_kind[1])
+        if plan.get('system_prefix') is not None:
+            options['systemPrefix'] = plan['system_prefix']
+        if limit != 'absent':
+            options['maxStatements'] = limit
+        if sim_options:
+            options.env_cell = cell
+        # unusual but supported configurations: option keys given as None (= absent) or left out altogether
+        for key, value in (options_patch or {}).items():
+            if value == '<absent>':
+                if key in options:
+                    dict.__delitem__(options, key)
+            else:
+                options[key] = value
 
     starts = [0]
     if sim_options:
